@@ -9,7 +9,8 @@
 From Coq Require Import ZArith NArith List Bool.
 From Texel Require Import Chess.Types Chess.Position Chess.PositionSpec Chess.PositionProofs Chess.PositionProofs2
   Chess.BitBoard Chess.MoveGen Chess.MoveGenWF Chess.Fen Chess.Spec
-  RevGen.RevGen RevGen.RevFacts RevGen.RevAbs RevGen.RevRestore RevGen.RevValid RevGen.RevCand.
+  RevGen.RevGen RevGen.RevFacts RevGen.RevAbs RevGen.RevRestore RevGen.RevValid RevGen.RevCand RevGen.RevRaw
+  RevGen.RevLegal RevGen.RevTheorems RevGen.RevSpec RevGen.RevPremise.
 Import ListNotations.
 Local Open Scope N_scope.
 
@@ -65,3 +66,89 @@ Theorem C15_complete_given_raw : forall zk, emptyKeysZero zk -> forall p m incl,
   normEmpty (unMakeMove zk q m ui0) = normEmpty (set_halfMoveClock p 0).
 Proof. exact complete_given_raw. Qed.
 Print Assumptions C15_complete_given_raw.
+
+(** * C15_complete *)
+(** the full statement: [WFrev] = representation invariant + accepted by the FEN reader's rules +
+    obtainable piece counts + usable e.p. square with an empty origin square (what positions
+    reached by play satisfy); legality by the FIDE rules of Chess/Spec.v.  With
+    includeAllEpSquares = false predecessors that have an e.p. square are reported only for the
+    e.p. capture itself (as the C++ documents). *)
+Definition C15_complete_statement : Prop :=
+  forall zk, emptyKeysZero zk -> forall p m incl,
+    WFrev zk p -> legal_spec (abs p) m ->
+    (incl = true \/ epSquare p = (-1)%Z \/
+     (isPawnPiece (getPiece p (mfrom m)) = true /\ Z.of_N (mto m) = epSquare p)) ->
+    let q := successor zk p m in
+    exists um, In um (genMoves zk q incl) /\ um_move um = m /\
+      normEmpty (unMakeMove zk q m (um_ui um)) = normEmpty (set_halfMoveClock p 0).
+
+(** proved for every legal move that is neither castling nor a pawn move: all moves of queen, rook,
+    bishop, knight and king (quiet or capturing, incl. moves that lose castling rights by a king or
+    rook move or by capturing a rook on its corner, from positions with or without e.p. square).
+    For the two remaining classes the un-move is in the list as soon as genMovesNoUndoInfo lists the
+    move (C15_complete_given_raw); that last step is not proved for them. *)
+Theorem C15_complete_partial : forall zk, emptyKeysZero zk -> forall p m incl,
+  WFrev zk p -> legal_spec (abs p) m ->
+  (incl = true \/ epSquare p = (-1)%Z \/
+   (isPawnPiece (getPiece p (mfrom m)) = true /\ Z.of_N (mto m) = epSquare p)) ->
+  In m (castleMoves (whiteMove p) p (occupiedBB p) (kingSq p (whiteMove p)) []) \/
+  In m (pawnBlock (whiteMove p) p []) \/
+  (In (mkUnMove m (withClock (snd (makeMove zk p m)) 0)) (genMoves zk (successor zk p m) incl) /\
+   normEmpty (unMakeMove zk (successor zk p m) m (withClock (snd (makeMove zk p m)) 0)) = normEmpty (set_halfMoveClock p 0)).
+Proof. exact complete_partial. Qed.
+Print Assumptions C15_complete_partial.
+
+(** the double push that leaves a usable e.p. square is the only raw reverse move of Q and is reported
+    with the undo information of P (given [MoveFacts], see C15_premises_decidable) *)
+Theorem C15_complete_doublepush_ep : forall zk, emptyKeysZero zk -> forall p m incl,
+  WFrev zk p -> MoveFacts p m ->
+  (incl = true \/ epSquare p = (-1)%Z \/
+   (isPawnPiece (getPiece p (mfrom m)) = true /\ Z.of_N (mto m) = epSquare p)) ->
+  (epSquare (successor zk p m) <> -1)%Z ->
+  In (mkUnMove m (withClock (snd (makeMove zk p m)) 0)) (genMoves zk (successor zk p m) incl) /\
+  normEmpty (unMakeMove zk (successor zk p m) m (withClock (snd (makeMove zk p m)) 0)) = normEmpty (set_halfMoveClock p 0).
+Proof. exact complete_doublepush_ep. Qed.
+Print Assumptions C15_complete_doublepush_ep.
+
+(** the hypotheses [MoveFacts] and [WFrev] are decidable: the check evaluates these tests (extracted)
+    on every (P, m) it sends to the Spec, pawn moves and castling included *)
+Theorem C15_premises_decidable :
+  (forall p m, moveFactsb p m = true -> MoveFacts p m) /\
+  (forall zk p, Consistent zk p -> wfrevb zk p = true -> WFrev zk p).
+Proof. exact (conj moveFactsb_sound wfrevb_sound). Qed.
+Print Assumptions C15_premises_decidable.
+
+(** a legal move comes from one of the seven blocks of the engine's pseudo-legal generator (C01) *)
+Theorem C15_legal_move_classes : forall p m, WF p -> legal_spec (abs p) m ->
+  let w := whiteMove p in
+  In m (queenBlock w p []) \/ In m (rookBlock w p []) \/ In m (bishopBlock w p []) \/ In m (kingBlock w p []) \/
+  In m (castleMoves w p (occupiedBB p) (kingSq p w) []) \/ In m (knightBlock w p []) \/ In m (pawnBlock w p []).
+Proof. exact blocks_of_legal. Qed.
+Print Assumptions C15_legal_move_classes.
+
+(** * C15_consistent *)
+(** the full statement, over the FIDE rules: every reported un-move restores a position in which
+    the move is legal and from which it leads back to Q *)
+Definition C15_consistent_statement : Prop :=
+  forall zk, emptyKeysZero zk -> forall q incl um,
+    Consistent zk q -> WF q -> epSquare (fixupEPSquare zk q) = epSquare q ->
+    In um (genMoves zk q incl) ->
+    let prev := unMakeMove zk q (um_move um) (um_ui um) in
+    legal_spec (abs prev) (um_move um) /\ abs (successor zk prev (um_move um)) = abs q.
+
+(** proved: what knownInvalid guarantees for every reported un-move (the part of consistency that
+    is decided by the filter); legality of the move in the restored position and the round trip of
+    the board are compared on the real code and against the Spec by the check, not proved *)
+Theorem C15_consistent_partial : forall zk pos incl um,
+  In um (genMoves zk pos incl) ->
+  let prev := unMakeMove zk pos (um_move um) (um_ui um) in
+  In (um_move um) (revMoveList pos) /\ u_halfMoveClock (um_ui um) = 0%Z /\
+  pieceCountsValid prev = true /\ snd (canTakeKing zk prev) = false /\
+  epSquare (fixupEPSquare zk prev) = epSquare prev /\
+  epSquare (kiRemade zk (fst (canTakeKing zk prev)) (um_move um)) = epSquare pos.
+Proof. exact consistent_partial. Qed.
+Print Assumptions C15_consistent_partial.
+
+(** * NoDup: statement only (duplicates are looked for in every list of the correspondence run) *)
+Definition C15_nodup_statement : Prop :=
+  forall zk q incl, Consistent zk q -> WF q -> NoDup (genMoves zk q incl).
